@@ -340,7 +340,7 @@ theorem emit2_labels_nodup (cs : Bool) (startid : Nat) (f : CSem2.Func) (hnd : n
   exact h.2
 
 theorem lower2_correct_prog (cs : Bool) (startid : Nat) (f : CSem2.Func) (ρ : List Int) (v : Int)
-    (hwt : CSem2.WT f) (hfr : frag f.body = true) (henv : EnvOK cs f.params ρ)
+    (hwt : CSem2.WT f) (henv : EnvOK cs f.params ρ)
     (hsmall : f.params.length + f.locals.length ≤ 1000000)
     (fuelC : Nat) (hex : exec cs fuelC (initStore f ρ) f.body = some (.ret v))
     (p : Prog) (ext : Qbe.Ext)
@@ -512,7 +512,7 @@ theorem lower2_correct_prog (cs : Bool) (startid : Nat) (f : CSem2.Func) (ρ : L
     simp only [Lower2.bodyOut, List.append_assoc, List.singleton_append, List.append_nil]
     rfl
   have hpost := sim_stmt T fuelC f.body (initStore f ρ) (.ret v) (false, false) "" "" (Lower2.bodyCtx startid f)
-    f.params.length f.vtys.length _ [] env2 M2 hex hfr hwt hpos hext hitsB ⟨(by intro h; cases h), (by intro h; cases h)⟩ hinv
+    f.params.length f.vtys.length _ [] env2 M2 hex (frag_all _) hwt hpos hext hitsB ⟨(by intro h; cases h), (by intro h; cases h)⟩ hinv
   obtain ⟨n3, hret⟩ := hpost
   have hfin : ∃ st r, T.Reach n3 (T.at env2 M2 (spills f.params 0 ++
       List.zipWith allocIns (declTys f.body) new ++ [.lbl none (bodyLabel startid) []])) st ∧
